@@ -286,6 +286,8 @@ impl<'a> LiveEvents<'a> {
             if *idx >= buf.len() {
                 // Exhausted: pop and continue (there may be another injected frame beneath).
                 self.inject.pop();
+                #[cfg(serde_saphyr_verif)]
+                self.verif_step("pop", "");
                 continue;
             }
 
@@ -313,6 +315,8 @@ impl<'a> LiveEvents<'a> {
                 })
                 .map_err(|err| err.with_location(ev.location()))?;
             if self.total_replayed_events > self.alias_limits.max_total_replayed_events {
+                #[cfg(serde_saphyr_verif)]
+                self.verif_step("serve", "err_total");
                 return Err(Error::AliasReplayLimitExceeded {
                     total_replayed_events: self.total_replayed_events,
                     max_total_replayed_events: self.alias_limits.max_total_replayed_events,
@@ -325,6 +329,8 @@ impl<'a> LiveEvents<'a> {
             );
             self.last_location = ev.location();
             self.produced_any_in_doc = true;
+            #[cfg(serde_saphyr_verif)]
+            self.verif_step("serve", "");
             return Ok(Some(ev));
         }
 
@@ -365,6 +371,8 @@ impl<'a> LiveEvents<'a> {
                     }
                     self.last_location = location;
                     self.produced_any_in_doc = true;
+                    #[cfg(serde_saphyr_verif)]
+                    self.verif_step("scalar", "");
                     return Ok(Some(ev));
                 }
 
@@ -400,6 +408,8 @@ impl<'a> LiveEvents<'a> {
                     );
                     self.last_location = location;
                     self.produced_any_in_doc = true;
+                    #[cfg(serde_saphyr_verif)]
+                    self.verif_step("start", "");
                     return Ok(Some(ev));
                 }
                 Event::SequenceEnd => {
@@ -409,6 +419,8 @@ impl<'a> LiveEvents<'a> {
                         .map_err(|err| err.with_location(location))?; // may finalize frames
                     self.last_location = location;
                     self.produced_any_in_doc = true;
+                    #[cfg(serde_saphyr_verif)]
+                    self.verif_step("end", "");
                     return Ok(Some(ev));
                 }
 
@@ -435,6 +447,8 @@ impl<'a> LiveEvents<'a> {
                     );
                     self.last_location = location;
                     self.produced_any_in_doc = true;
+                    #[cfg(serde_saphyr_verif)]
+                    self.verif_step("start", "");
                     return Ok(Some(ev));
                 }
                 Event::MappingEnd => {
@@ -444,6 +458,8 @@ impl<'a> LiveEvents<'a> {
                         .map_err(|err| err.with_location(location))?;
                     self.last_location = location;
                     self.produced_any_in_doc = true;
+                    #[cfg(serde_saphyr_verif)]
+                    self.verif_step("end", "");
                     return Ok(Some(ev));
                 }
 
@@ -456,6 +472,8 @@ impl<'a> LiveEvents<'a> {
                         self.per_anchor_expansions[anchor_id].saturating_add(1);
                     let count = self.per_anchor_expansions[anchor_id];
                     if count > self.alias_limits.max_alias_expansions_per_anchor {
+                        #[cfg(serde_saphyr_verif)]
+                        self.verif_step("alias", "err_peranchor");
                         return Err(Error::AliasExpansionLimitExceeded {
                             anchor_id,
                             expansions: count,
@@ -469,6 +487,8 @@ impl<'a> LiveEvents<'a> {
                     // Push for replay; enforce stack depth limit.
                     let next_depth = self.inject.len() + 1;
                     if next_depth > self.alias_limits.max_replay_stack_depth {
+                        #[cfg(serde_saphyr_verif)]
+                        self.verif_step("alias", "err_stack");
                         return Err(Error::AliasReplayStackDepthExceeded {
                             depth: next_depth,
                             max_depth: self.alias_limits.max_replay_stack_depth,
@@ -493,6 +513,8 @@ impl<'a> LiveEvents<'a> {
                             self.produced_any_in_doc = true;
                             return Ok(Some(ev));
                         }
+                        #[cfg(serde_saphyr_verif)]
+                        self.verif_step("alias", "err_recursive");
                         return Err(Error::RecursiveReferencesRequireWeakTypes { location });
                     }
 
@@ -503,6 +525,8 @@ impl<'a> LiveEvents<'a> {
                         .and_then(|o| o.as_ref())
                         .is_some();
                     if !exists {
+                        #[cfg(serde_saphyr_verif)]
+                        self.verif_step("alias", "err_unknown");
                         return Err(Error::unknown_anchor().with_location(location));
                     }
                     self.inject.push(InjectFrame {
@@ -510,6 +534,8 @@ impl<'a> LiveEvents<'a> {
                         idx: 0,
                         reference_location: location,
                     });
+                    #[cfg(serde_saphyr_verif)]
+                    self.verif_step("alias", "");
                     return self.next_impl();
                 }
 
@@ -535,6 +561,8 @@ impl<'a> LiveEvents<'a> {
                             )
                             .with_location(loc2));
                         }
+                        #[cfg(serde_saphyr_verif)]
+                        self.verif_step("finish", "");
                         return Ok(None);
                     }
                     continue;
@@ -567,7 +595,23 @@ impl<'a> LiveEvents<'a> {
             return Ok(Some(ev));
         }
 
+        #[cfg(serde_saphyr_verif)]
+        self.verif_step("finish", "");
         Ok(None)
+    }
+
+    /// Verification hook: log one pump step with the abstract state after it (see `verif_hooks`).
+    #[cfg(serde_saphyr_verif)]
+    fn verif_step(&self, action: &'static str, err: &'static str) {
+        crate::verif_hooks::pump_step(crate::verif_hooks::PumpStep {
+            action,
+            inject: self.inject.len(),
+            rec: self.rec_stack.len(),
+            replayed: self.total_replayed_events,
+            anchors: self.anchors.iter().filter(|a| a.is_some()).count(),
+            held: self.rec_stack.iter().map(|f| f.buf.len()).sum(),
+            err,
+        });
     }
 
     /// Ensure the anchors vec is large enough for `anchor_id`.
